@@ -25,10 +25,10 @@ CHECKS = {
          "Generated families (library-built worlds and hand-built families with adversarial strings, every f64 class, timestamps, explicit +Inf buckets) are encoded through all three entry points, parsed by an independent parser of format 0.0.4 and compared line by line.", "4/C04", SEQ_NOTE),
  "C05": ("reference-model monitor: tuple->child map checked after every request via unique-digit updates",
          "Requests through all four lookup forms over boundary-shifted tuples; after each request a unique amount is added through the handle and the whole collection is compared with the model map.", "4/C05", SEQ_NOTE),
- "C06": ("reference-model monitor + twin-registry differential monitor over random register/unregister/gather histories",
-         "Expected outcome of every call from the statement, plus a twin registry that never sees the failed calls: any divergence in outcomes, gathers or the final probe is state left behind by a failed call.", "4/C06", SEQ_NOTE),
- "C07": ("reference-model + differential monitor: same collectors in several registration orders / hash states vs modelled gather",
-         "Random compatible worlds registered in 3-5 orders into fresh registries (fresh RandomStates, alternate threads); every gather must equal the model and the other gathers, and pass the ordering/uniqueness invariants.", "4/C07", SEQ_NOTE),
+ "C06": ("reference-model monitor + twin-registry differential monitor over random register/unregister/gather histories; Wing-Gong-Lowe linearizability search over the same calls issued by 3-4 real threads (E1)",
+         "Expected outcome of every call from the statement, plus a twin registry that never sees the failed calls: any divergence in outcomes, gathers or the final probe is state left behind by a failed call. Histories issued by several threads (barrier-aligned and free-running, closing sequential probe included) must have a real-time-consistent sequential explanation under the same admission rule, with every gather showing the registered descriptor set of its place in the order.", "4/C06", SEQ_NOTE + " The threaded stage runs on real threads only (the registry's lock is not routed through the sync shim), so its reach is what 16 cores and aligned starts produce in the time budget."),
+ "C07": ("reference-model + differential monitor: same collectors in several registration orders / hash states vs modelled gather; gathers concurrent with register/unregister judged by a linearizability search on real threads (E1)",
+         "Random compatible worlds registered in 3-5 orders into fresh registries (fresh RandomStates, alternate threads); every gather must equal the model and the other gathers, and pass the ordering/uniqueness invariants. Gathers issued while other threads register and unregister (E1 stage shared with C06) must show the descriptor set of one state of the registry, in name order, no sample twice.", "4/C07", SEQ_NOTE),
  "C08": ("reference-model monitor: Vec<f64> reference histogram vs collected buckets/sum/count; acceptance rule on generated bound lists",
          "Bucket lists from every f64 class (sorted, unsorted, duplicated, NaN, infinite, empty) and observations at bounds +-1ulp through Histogram, HistogramVec children and LocalHistogram with interleaved collects.", "4/C08", SEQ_NOTE),
  "C09": ("reference-matcher monitor on every constructor + exposition invariant monitor on every gather",
@@ -45,7 +45,7 @@ CHECKS = {
          "The same clock-free single-threaded scenarios (all metric kinds, registries with prefix/common labels, removals, resets, local flushes, custom summary/histogram families with timestamps) run in both builds; every gather/collect is dumped through getters common to both data models together with the TextEncoder bytes and the two streams must be identical.", "4/C16",
          "Trusted base: the scenario interpreter and its canonical dump (harness/xbuild), the accessor shim between the two models (value() vs get_value()); error messages are not compared because they embed the Debug form of the model structs."),
  "C19": ("generated client programs: seeded macro declarations compiled against /repo, every accessor path driven and the backing vector compared with the generator's model; valgrind memcheck on the auto-flush accessors",
-         "Quantifies over programs: declarations from the grammar (1-4 labels x 1-4 values, inline/enum/renamed values, eight metric types, three auto-flush types, permuted backing vectors) are generated per run, compiled and executed; each leaf is updated through field paths, get(enum) and try_get(str) mixes with unique amounts. The pointer-offset delegators of the auto-flush expansion additionally run under memcheck, where a wrong offset that leaves the thread-local struct is an invalid read.", "4/C19",
+         "Quantifies over programs: declarations from the grammar (1-4 labels x 1-4 values, inline/enum/renamed values, eight metric types, three auto-flush types, permuted backing vectors) are generated per run, compiled and executed; each leaf is updated through field paths, get(enum) and try_get(str) mixes with unique amounts; six auto-flush programs in ten add a threaded phase (2-4 threads share the delegator, each sees only its own thread-local pending amounts, flushes through the struct or through leaf handles, and a barrier-aligned flush storm hits one handle from all threads round after round). The pointer-offset delegators of the auto-flush expansion additionally run under memcheck, where a wrong offset that leaves the thread-local struct is an invalid read.", "4/C19",
          "Trusted base: tools/gen_static.py (declaration + expected model), harness/staticgen compare(); value identifiers avoid the expansion's own locals (hygiene issue recorded in DESIGN.md); Miri cannot execute the auto-flush expansion."),
  "C17": ("fault-injection sweep under catch_unwind: pool arguments for every Result API, arbitrary families, writer failing at every byte",
          "Panics are caught and attributed; Err is required for the documented invalid classes; the failing-writer fault point is enumerated completely per sampled input (every k up to the output length, capped at 1500 in quick).", "4/C17", SEQ_NOTE),
@@ -83,7 +83,7 @@ def main():
             "add_only": True,
         },
         "engines": [
-            {"name": "conc", "path": "harness/conc", "serves_properties": ["C01", "C02", "C03", "C10", "C11"], "kind_free_text": "E1 perturbed native threads, E2 seeded token-passing scheduler over the verif_sync shim with trace monitors (happens-before, progress), E3 Miri on the unguarded build; client-boundary histories checked by digit-decoding oracles and a Wing-Gong-Lowe search"},
+            {"name": "conc", "path": "harness/conc", "serves_properties": ["C01", "C02", "C03", "C06", "C07", "C10", "C11"], "kind_free_text": "E1 perturbed native threads, E2 seeded token-passing scheduler over the verif_sync shim with trace monitors (happens-before, progress), E3 Miri on the unguarded build; client-boundary histories checked by digit-decoding oracles and a Wing-Gong-Lowe search"},
             {"name": "seq", "path": "harness/seq", "serves_properties": sorted(p for p in CHECKS if p not in ("C01", "C02", "C03", "C10", "C11", "C16", "C19")), "kind_free_text": "E4 reference-model / differential monitors driven by seeded adversarial generators; E5 exposition invariant monitors on every gather"},
             {"name": "xbuild", "path": "harness/xbuild", "serves_properties": ["C16"], "kind_free_text": "scenario interpreter built twice (protobuf / plain data model) with canonical dumps, compared by tools/c16_shard.py"},
             {"name": "staticgen", "path": "harness/staticgen + tools/gen_static.py", "serves_properties": ["C19"], "kind_free_text": "E6 generated client programs for the static-metric macros, run natively and (auto-flush) under valgrind memcheck"},
